@@ -37,7 +37,8 @@ CHECKS = {
          "and canonical blocks; C05_any_decoder (any bundle value in the decoder's image, decoder-independent); C05_uncorrupted_passes, "
          "C05_no_crc_passes; algebra C05_crc16/crc32c_detects_window without enumeration. C05_full (window class without the premise) is REFUTED "
          "(C05_full_refuted): a concrete CRC-16 payload block that a two-byte window turns into a valid CRC-32C block of the same length - a "
-         "property of the BPv7 wire format, reproduced on the implementation (corpus line, counted, not judged). K-corrupt channel: every bit flip, "
+         "property of the BPv7 wire format, reproduced on the implementation (corpus line, counted, not judged); a second mechanism with the same root (a window "
+         "over the array head re-frames the block into one WITHOUT CRC: C05_ex_reframed, known class crc-type-removed-by-reframing). K-corrupt channel: every bit flip, "
          "every window start with boundary/exhaustive patterns and CRC overwrites per block, model vs implementation, oracle = the alarm condition; "
          "REENC lines: a received bundle (correct or overwritten CRC values) gets a new payload and lifetime and is sent on - what to_cbor emits must "
          "pass the check in memory and after decoding (C05_reencoded_passes: for every well-formed received bundle with a payload block, every new payload and lifetime).",
